@@ -1,5 +1,5 @@
 (* Props/C14.v — property C14: built-in reports state exactly the facts of the event stream (structure). *)
-From CV Require Import Model.Base Model.Events Model.Stats Model.Reporters Model.ReportersSpec Proofs.BaseP Proofs.ReportersP.
+From CV Require Import Model.Base Model.Events Model.Contract Model.Stats Model.Reporters Model.ReportersSpec Proofs.BaseP Proofs.ReportersP Proofs.ReportersP2 Proofs.ReportersP3.
 From Coq Require Import Lia.
 
 (* terminal output: at most one line per event; exactly one for a step result, a failed hook, a parser error *)
@@ -84,3 +84,61 @@ Example C14_libtest_totals_nonvacuous :
   = [RSuiteStarted 2; RTest 0 [1; 0; 0; 0; 2; 0; 0; 0; 0; 3]; RTest 1 [1; 0; 0; 0; 2; 0; 0; 0; 0; 3];
      RTest 0 [1; 0; 0; 0; 2; 0; 0; 0; 0; 4]; RTest 2 [1; 0; 0; 0; 2; 0; 0; 0; 0; 4]; RSuiteResult false 1 1 0].
 Proof. vm_compute. reflexivity. Qed.
+
+(* LIBTEST, THE WHOLE OF C14 on the stream the writer receives (it sits behind Normalize): if the stream is accepted by
+   the sequential contract (so run-Finished, if any, is last), contains ParsingFinished (until then the writer only
+   buffers), every step Started is followed by its own result before any other step event (`steps_bracketed`) and all
+   features have a path (K14a otherwise), then the report states EXACTLY the facts of the stream, in order, every
+   started line has exactly one result line of the same name, and the totals and the verdict agree with the entries.
+   ReportersP3 shows by witnesses that none of the hypotheses can be dropped. *)
+Theorem C14_libtest_whole_document :
+  forall has_path es,
+    (forall f, has_path f = true) -> normalized_prefix es = true -> has_pf es = true -> steps_bracketed es = true ->
+    c14_libtest_ok es (libtest_lines has_path es) = true.
+Proof. exact libtest_c14_normalized. Qed.
+Print Assumptions C14_libtest_whole_document.
+
+(* the facts part needs neither paths nor bracketing, and holds as LIST equality (order included) *)
+Theorem C14_libtest_facts_in_order :
+  forall has_path es, has_pf es = true -> fin_only_last es = true ->
+    libtest_facts (libtest_lines has_path es) = map anon_parse (stream_facts true es).
+Proof. exact libtest_facts_exact. Qed.
+Print Assumptions C14_libtest_facts_in_order.
+
+Example C14_libtest_whole_document_nonvacuous :
+  normalized ReportersP3.ex_stream = true /\ has_pf ReportersP3.ex_stream = true /\
+  steps_bracketed ReportersP3.ex_stream = true /\
+  length (libtest_facts (libtest_lines all_paths ReportersP3.ex_stream)) = 7%nat.
+Proof. vm_compute. repeat split; reflexivity. Qed.
+
+(* CUCUMBER JSON, THE WHOLE OF C14 on the stream the writer receives: for every stream accepted by the sequential
+   contract and closed by run-Finished, whose scenario events carry non-zero feature ids (0 is the pseudo feature of
+   parser errors) of features with a path (K14b otherwise): the facts of the document are exactly the facts of the
+   stream as a multiset (retries of a scenario share one element, background steps sit in their own element), and
+   every feature and element appears once. Without run-Finished nothing is written. *)
+Theorem C14_json_whole_document :
+  forall has_path es,
+    normalized es = true -> fids_nonzero es = true -> fids_have_path has_path es = true ->
+    c14_json_ok es (json_doc has_path es) = true.
+Proof. exact c14_json_normalized. Qed.
+Print Assumptions C14_json_whole_document.
+
+(* the facts half holds for EVERY event list (contract-abiding or not, with or without paths): the document built so
+   far states a permutation of the facts of the events handled so far *)
+Theorem C14_json_facts_of_any_list :
+  forall has_path handled, fids_nonzero handled = true ->
+    Permutation.Permutation
+      (json_facts 0 None (flatten_json (fold_left (json_handle has_path) handled [])))
+      (flat_map (facts_of_event false) handled).
+Proof. exact json_facts_invariant. Qed.
+Print Assumptions C14_json_facts_of_any_list.
+
+Theorem C14_json_nothing_without_finished :
+  forall has_path es, no_finished es = true -> json_doc has_path es = [].
+Proof. exact json_doc_unfinished. Qed.
+
+Example C14_json_whole_document_nonvacuous :
+  normalized ReportersP2.ex_stream = true /\ fids_nonzero ReportersP2.ex_stream = true /\
+  fids_have_path ex_has_path ReportersP2.ex_stream = true /\
+  length (json_facts 0 None (json_doc ex_has_path ReportersP2.ex_stream)) = 8%nat.
+Proof. vm_compute. repeat split; reflexivity. Qed.
